@@ -131,7 +131,24 @@ def main():
             undecided(f'unit {un}: Verus front-end error (unsupported construct / type error): extraction or model out of date')
         real_undecided = [d for d in r['undecided'] if d['owner_kind'] != 'vacuity']
         if real_undecided:
-            undecided(f'unit {un}: resource limit exceeded in {[d["owner"] for d in real_undecided]}')
+            # a resource limit is not a verdict: re-run each such function alone (fresh solver, 10x the limit);
+            # a definite failure then counts, a success is recorded as instability, a second rlimit stays undecided
+            still = []
+            for fnname in sorted({d['owner'] for d in real_undecided if d['owner']}):
+                seg = next((s_ for s_ in u.segments if s_['name'] == fnname and s_['kind'] == 'verify'), None)
+                if seg is None:
+                    still.append(fnname); continue
+                rr = U.run_verus(u, timeout=900, extra=['--verify-root', '--verify-function', seg['fn'], '--rlimit', '100'])
+                checker_cmds.append(rr['cmd'])
+                defin = [d for d in rr['diags'] if d['owner'] == fnname and d['owner_kind'] == 'verify']
+                if rr['frontend_errors'] or rr['timed_out'] or [d for d in rr['undecided'] if d['owner'] == fnname]:
+                    still.append(fnname)
+                elif defin:
+                    r['diags'].extend(defin)
+                else:
+                    unstable.append({'unit': un, 'function': fnname, 'note': 'rlimit in the whole-unit run, verified alone with --rlimit 100'})
+            if still:
+                undecided(f'unit {un}: resource limit exceeded in {still}')
         forbidden, trusted = scan_forbidden(u)
         if forbidden:
             undecided(f'unit {un}: forbidden construct inside a verified function: {forbidden}')
